@@ -25,6 +25,7 @@ import (
 	"math/rand"
 	"os"
 	"runtime"
+	"runtime/debug"
 	"runtime/pprof"
 	"sort"
 	"strings"
@@ -47,7 +48,20 @@ func main() {
 		run)
 }
 
-var debug = os.Getenv("VERIF_C04_DEBUG") != ""
+var debugLog = os.Getenv("VERIF_C04_DEBUG") != ""
+
+// protect runs fn in its own goroutine under a watchdog and catches a panic there.
+func protect(d time.Duration, fn func()) (finished bool, panicMsg string) {
+	finished = ev.WithTimeout(d, func() {
+		defer func() {
+			if e := recover(); e != nil {
+				panicMsg = fmt.Sprintf("panic: %v\n%s", e, ev.PerkeepFrames(string(debug.Stack())))
+			}
+		}()
+		fn()
+	})
+	return
+}
 
 // ------------------------------------------------------------------ pool
 
@@ -186,11 +200,15 @@ func (c *caseCtx) execute(freezeAt int64, live func(inst *instance, call inject.
 		b := c.w.Universe[op.Blob]
 		cur, curOp = op.Blob, oi
 		var rerr error
-		ok := ev.WithTimeout(300*time.Second, func() {
+		ok, pmsg := protect(300*time.Second, func() {
 			_, rerr = blobserver.Receive(ctx, inst.s, b.Ref, bytes.NewReader(b.Data))
 		})
 		if !ok {
 			return nil, nil, fmt.Errorf("hang: receive of %v (op %d) did not return within 300s", b.Ref, oi)
+		}
+		if pmsg != "" {
+			lw.release()
+			return nil, nil, fmt.Errorf("panic: receive of %v (op %d): %s", b.Ref, oi, pmsg)
 		}
 		if n := runaway.Load(); n > 0 {
 			lw.release()
@@ -355,6 +373,8 @@ func (c *caseCtx) runA() {
 			r.Violation("hang/no-fault-run", fmt.Sprintf("[%s] %v", w.Spec.ID, err), caseReplay(c, nil))
 		} else if strings.HasPrefix(err.Error(), "runaway:") {
 			r.Violation("pack-runaway/no-fault-run", fmt.Sprintf("[%s] %v", w.Spec.ID, err), caseReplay(c, nil))
+		} else if strings.HasPrefix(err.Error(), "panic:") {
+			r.Violation("panic/no-fault-run", fmt.Sprintf("[%s] %v", w.Spec.ID, err), caseReplay(c, nil))
 		} else {
 			r.Violation("op-error/no-fault-run", fmt.Sprintf("[%s] %v", w.Spec.ID, err), caseReplay(c, nil))
 		}
@@ -439,6 +459,8 @@ func (c *caseCtx) crashRun(k int64) {
 			r.Violation("hang/crash-run/"+c.labels[k], fmt.Sprintf("[%s k=%d] %v", c.w.Spec.ID, k, err), rp)
 		} else if strings.HasPrefix(err.Error(), "runaway:") {
 			r.Violation("pack-runaway/crash-run/"+c.labels[k], fmt.Sprintf("[%s k=%d] %v", c.w.Spec.ID, k, err), rp)
+		} else if strings.HasPrefix(err.Error(), "panic:") {
+			r.Violation("panic/crash-run/"+c.labels[k], fmt.Sprintf("[%s k=%d] %v", c.w.Spec.ID, k, err), rp)
 		} else {
 			r.Inconclusive(fmt.Sprintf("%s k=%d: %v", c.w.Spec.ID, k, err))
 		}
@@ -486,11 +508,13 @@ func (c *caseCtx) labelStates() {
 func (c *caseCtx) reopen(s *site, lw *lower) *instance {
 	var inst *instance
 	var err error
-	if s.r.Guard("restart/"+s.tail(), s.replay(), func() {
-		if !ev.WithTimeout(300*time.Second, func() { inst, err = open(lw, c.w.Spec.MaxZip) }) {
-			err = fmt.Errorf("hang: construction did not return within 300s")
-		}
-	}) {
+	finished, pmsg := protect(300*time.Second, func() { inst, err = open(lw, c.w.Spec.MaxZip) })
+	if pmsg != "" {
+		s.viol("panic/restart/"+s.tail(), "constructing blobpacked over the crash state: "+pmsg)
+		return nil
+	}
+	if !finished {
+		s.r.Inconclusive(fmt.Sprintf("%s: constructing blobpacked (%s) did not return within 300s", s.w.Spec.ID, s.tail()))
 		return nil
 	}
 	s.r.Count("restarts", 1)
@@ -705,6 +729,8 @@ func genCases(r *ev.Run) []caseSpec {
 	add("duplicate-file", 0, "schema-last",
 		fileSpec{Name: "first-name.bin", Size: 600*kib + rng.Intn(200*kib), Content: "random"},
 		fileSpec{Name: "another name.dat", Content: "as:first-name.bin"})
+	add("truncate-retry", 500*kib+rng.Intn(500*kib), "schema-last", fileSpec{Name: "ptrunc.bin", Size: 1300*kib + rng.Intn(400*kib), Content: "periodic", Period: 66*kib + rng.Intn(300*kib)})
+	out[len(out)-1].TruncSearch = "any"
 	if !r.Thorough() {
 		return out
 	}
@@ -755,7 +781,7 @@ func genCases(r *ev.Run) []caseSpec {
 // ------------------------------------------------------------------ run
 
 func run(r *ev.Run) {
-	if !debug {
+	if !debugLog {
 		log.SetOutput(io.Discard)
 	}
 	defer blobpacked.SetRecovery(blobpacked.NoRecovery)
